@@ -372,7 +372,7 @@ PROPS["C15"] = {
         "thorough": [
             {"fuzz": "FuzzRestore", "fuzztime": "180s", "workers": 8, "timeout": 600},
             {"run": "^TestCorrupt$", "checks": 1200000, "shards": 12},
-            {"run": "^TestRoundTrip$", "checks": 12000, "shards": 12},
+            {"run": "^TestRoundTrip$", "checks": 2400, "shards": 12},
             {"run": "^TestWireRoundTrip$", "checks": 8000, "shards": 4},
             {"run": "^TestDuplicateParty$", "shards": 1},
             {"run": "^TestWrongSizeModulus$", "shards": 1},
@@ -513,9 +513,9 @@ PROPS["C05"] = {
             {"run": "^TestSweep$", "shards": 16, "timeout": 9000},
             {"run": "^TestSweepPrefix$", "shards": 4, "timeout": 9000},
             {"run": "^TestSweepHeader$", "shards": 16, "timeout": 9000},
-            {"run": "^TestCheap$", "checks": 200000, "shards": 6},
-            {"run": "^TestDoerner$", "checks": 40000, "shards": 4},
-            {"run": "^TestCMP$", "checks": 2400, "shards": 16, "timeout": 9000},
+            {"run": "^TestCheap$", "checks": 60000, "shards": 6},
+            {"run": "^TestDoerner$", "checks": 12000, "shards": 4},
+            {"run": "^TestCMP$", "checks": 320, "shards": 16, "timeout": 9000},
         ],
     },
 }
